@@ -118,11 +118,12 @@ def pSpec : P FbSpec := fun ts => do
 
 def pPrim : P PrimCall
   | "Pf" :: ts => do
+    let (f, ts) ← pStr ts
     let (n, ts) ← pStr ts
     let (v, ts) ← pStr ts
     let (a, ts) ← pStr ts
     let (r, ts) ← pStr ts
-    pure (.fmt n v a r, ts)
+    pure (.fmt f n v a r, ts)
   | "Pp" :: ts => do
     let (v, ts) ← pStr ts
     let (a, ts) ← pStr ts
@@ -152,7 +153,7 @@ def tagSep : String := String.singleton (Char.ofNat 0xE001)
 def tagClose : String := String.singleton (Char.ofNat 0xE002)
 
 def tagOf : PrimCall → String
-  | .fmt n v a r => tagOpen ++ "f" ++ tagSep ++ n ++ tagSep ++ v ++ tagSep ++ a ++ tagSep ++ r ++ tagClose
+  | .fmt f n v a r => tagOpen ++ "f" ++ tagSep ++ f ++ tagSep ++ n ++ tagSep ++ v ++ tagSep ++ a ++ tagSep ++ r ++ tagClose
   | .plain v a r => tagOpen ++ "p" ++ tagSep ++ v ++ tagSep ++ a ++ tagSep ++ r ++ tagClose
   | .conv c v a r => tagOpen ++ "c" ++ tagSep ++ c ++ tagSep ++ v ++ tagSep ++ a ++ tagSep ++ r ++ tagClose
 
@@ -199,7 +200,7 @@ inductive SOp where
   | clear
   | start (p : Parent)
   | stop (p : Parent)
-  | setAvail (a : Option (List String))
+  | setAvail (f : String) (a : Option (List String))
   | probe (c a : String)
 
 def pAvail : P (Option (List String))
@@ -216,7 +217,10 @@ def pOp : P SOp
   | "clear" :: ts => some (.clear, ts)
   | "start" :: ts => do let (p, ts) ← pParent ts; pure (.start p, ts)
   | "stop" :: ts => do let (p, ts) ← pParent ts; pure (.stop p, ts)
-  | "setavail" :: ts => do let (a, ts) ← pAvail ts; pure (.setAvail a, ts)
+  | "setavail" :: ts => do
+    let (f, ts) ← pStr ts
+    let (a, ts) ← pAvail ts
+    pure (.setAvail f a, ts)
   | "probe" :: ts => do
     let (c, ts) ← pStr ts
     let (a, ts) ← pStr ts
@@ -253,7 +257,7 @@ def encAVal : Option AVal → String
 /-- `Report.clear()` as far as this model's world goes: both lists, the group stack, a fresh default
     formatter, and the overridden classes restored. -/
 def clearWorld (w : World) : World :=
-  { w with store := w.store.clear, feedback := [], ignored := [], groups := [], avail := available }
+  { w with store := w.store.clear, feedback := [], ignored := [], groups := [], fmtId := "default", avail := available }
 
 structure Sess where
   w : World
@@ -276,7 +280,7 @@ def stepOp (O : Oracle) (s : Sess) : SOp → Sess
   | .clear => { s with w := clearWorld s.w, out := "ok" :: s.out }
   | .start p => { s with w := startGroup s.w p, out := "ok" :: s.out }
   | .stop p => { s with w := stopGroup s.w p, out := "ok" :: s.out }
-  | .setAvail a => { s with w := { s.w with avail := a.getD available }, out := "ok" :: s.out }
+  | .setAvail f a => { s with w := { s.w with fmtId := f, avail := a.getD available }, out := "ok" :: s.out }
   | .probe c a => { s with out := encAVal (s.w.store.lookup c a) :: s.out }
 
 def encIds (l : List Nat) : String := ",".intercalate (l.map toString)
@@ -292,7 +296,7 @@ def handleSession (ts : List String) : String :=
   | some (mode, tab, classes, ops) =>
     if mode ≠ "sym" ∧ mode ≠ "tab" then "bad-request" else
     let O : Oracle := if mode = "sym" then symbolicOracle else tableOracle tab
-    let w0 : World := { store := mkStore classes, avail := available, feedback := [], ignored := [],
+    let w0 : World := { store := mkStore classes, fmtId := "default", avail := available, feedback := [], ignored := [],
                         groups := [], childLog := [], nextId := 0 }
     let s := ops.foldl (stepOp O) { w := w0, objs := [], out := [] }
     let log := ",".intercalate (s.w.childLog.map fun (g, i, b) => s!"{g}:{i}:{encBool b}")
